@@ -135,6 +135,29 @@ def proof_status(ctx, mod):
                     if a not in allowed and a.split(".")[-1] not in allowed:
                         st["ok"] = False
                         st["broken"].append("theorem %s depends on unlisted axiom %s" % (t, a))
+    # thorough tier: independent re-check of the compiled theorems (and everything they depend on) with coqchk
+    if ok and ctx.tier == "thorough" and not getattr(mod, "NO_COQCHK", False):
+        modname = "Verif." + mod.PROPS_FILE[:-2].replace("/", ".")
+        with C.Lock("coq"):
+            rc, out = C.sh(["timeout", "3000", "coqchk", "-silent", "-o", "-Q", ".", "Verif", modname], cwd=C.COQ, timeout=3100)
+        summary = out[out.find("CONTEXT SUMMARY"):] if "CONTEXT SUMMARY" in out else out[-1500:]
+        st["coqchk"] = dict(rc=rc, summary=" ".join(summary.split())[:1500])
+        m = re.search(r"\* Axioms:(.*?)\* Constants/Inductives relying on type-in-type:(.*?)\* Constants/Inductives relying on unsafe \(co\)fixpoints:(.*?)\* Inductives whose positivity is assumed:(.*)", summary, re.S)
+        if rc != 0 or not m:
+            st["ok"] = False
+            st["broken"].append("coqchk failed: " + out[-300:])
+        else:
+            axs = [a.strip() for a in m.group(1).strip().split("\n") if a.strip() and a.strip() != "<none>"]
+            st["coqchk"]["axioms"] = axs
+            allowed = set(getattr(mod, "ALLOWED_AXIOMS", [])) | set(getattr(mod, "COQCHK_LIBRARY_AXIOMS", []))
+            for a in axs:
+                if a not in allowed and a.split(".")[-1] not in allowed:
+                    st["ok"] = False
+                    st["broken"].append("coqchk reports unlisted axiom %s" % a)
+            for g in (2, 3, 4):
+                if m.group(g).strip() != "<none>":
+                    st["ok"] = False
+                    st["broken"].append("coqchk: kernel checks bypassed: " + m.group(g).strip()[:200])
     return st
 
 
@@ -226,6 +249,7 @@ def run_check(pid, tier, seed, replay=None):
         evaluations=max(ctx.evaluations, 1), distinct_nontrivial=len(ctx.distinct),
         rule=getattr(mod, "RULE", ""), samples=ctx.samples or ["(none)"],
         known_findings_reproduced=sorted(seen_known),
+        coqchk=st.get("coqchk", "not run in this tier"),
         notes=ctx.notes,
     )
     cov.update(ctx.cov)
